@@ -14,7 +14,7 @@
     any of the three.
 """
 KIND = {
-    "R01.1": "T", "R01.2": "T", "R01.3": "W", "R01.4": "S", "R01.5a": "S", "R01.5b": "S", "R01.6": "W+S", "R01.7": "W", "R01.8": "W",
+    "R01.1": "T", "R01.2": "T", "R01.3": "W", "R01.4": "S", "R01.5a": "S", "R01.5b": "S", "R01.6": "W+S", "R01.7": "W", "R01.8": "W", "R01.9": "S", "R01.10": "W", "R06.8": "S", "R07.9": "S", "R14.6": "S",
     "R02.1": "T", "R02.2": "T", "R02.3": "S+W", "R02.3b": "T", "R03.2b": "T", "R02.4": "T", "R02.5": "S", "R02.6": "S", "R02.7": "W",
     "R03.1": "T", "R03.2": "S", "R03.3": "T", "R03.4": "W", "R03.5": "S",
     "R04.1": "W", "R04.2": "W", "R04.3": "W", "R04.4": "S", "R04.5": "W+S", "R04.6": "S",
@@ -26,12 +26,12 @@ KIND = {
     "R10.1": "S", "R10.2": "S", "R10.3": "S", "R10.4": "S", "R10.5": "W",
     "R11.1": "S", "R11.2": "S", "R11.3": "S", "R11.4": "W",
     "R12.1": "S", "R12.2": "S",
-    "R13.1": "S", "R13.2": "S",
+    "R13.1": "S", "R13.2": "S", "R13.3": "S",
     "R14.1": "T", "R14.2": "T", "R14.3": "T", "R14.4": "W", "R14.5": "S",
     "R15.1": "T", "R15.2": "W", "R15.3": "W", "R15.4": "W", "R15.5": "W", "R15.6": "S",
     "R16.1": "T", "R16.2": "W", "R16.3": "W", "R16.4": "W",
     "R17.1": "W", "R17.2": "W", "R17.3": "W", "R17.4": "T", "R17.5": "W", "R17.6": "S",
-    "R18.1": "W", "R18.2": "T", "R18.3a": "S", "R18.3b": "S", "R18.4": "W", "R18.5": "T", "R18.6": "T", "R18.7": "T", "R18.8": "W", "R18.9": "W", "R18.10": "W",
+    "R18.1": "W", "R18.2": "T", "R18.3a": "S", "R18.3b": "S", "R18.4": "W", "R18.5": "T", "R18.6": "T", "R18.7": "T", "R18.8": "W", "R18.9": "W", "R18.10": "W", "R18.11": "S",
     "R19.1a": "S", "R19.1b": "W", "R19.1c": "T", "R19.2": "W", "R19.3": "T", "R19.4": "T", "R19.5": "S", "R19.6": "T",
     "R20.1": "T", "R20.3": "W", "R20.4": "W", "R20.5": "S",
     "SELF": "self-validation of the checker on single-edit variants of the current tree",
